@@ -323,7 +323,7 @@ def thresholds(tier):
   n = len(configs(tier))
   t = {"configs_explored": n, "exhaustive_sets_complete": n - 5, "cycles_judged": 30000, "messages_delivered": 8000,
        "count_checks": 10000, "resets_midrun": 50, "pipe_enq_when_full": 200, "bypass_deq_when_empty": 200,
-       "mixed_system_runs": 100, "mixed_messages_delivered": 1000, "peek_checks": 1000}
+       "mixed_system_runs": 100, "mixed_messages_delivered": 1000, "peek_checks": 1000, "adapter_runs": 100, "adapter_zero_messages_accepted": 500}
   if tier == "thorough":
     t.update({"cycles_judged": 800000, "messages_delivered": 200000})
   return t
@@ -524,8 +524,110 @@ def run_mixed(sh, case):
     G.unload(mod)
 
 
+ADAPT_SRC = """
+from pymtl3 import *
+from pymtl3.stdlib.stream import SendQueueAdapter, RecvQueueAdapter
+@bitstruct
+class AMsg:
+  a: Bits4
+  b: Bits8
+def K(m): return int(m.to_bits()) if hasattr(m, "to_bits") else int(m)
+class TopSendAd(Component):
+  # cycle-level producer -> SendQueueAdapter (one entry) -> stream consumer with stalls
+  def construct(s, T, msgs, offer, stall):
+    s.q = SendQueueAdapter(T)
+    s.cyc = 0; s.idx = 0; s.accepted = []; s.delivered = []; s.rdy_seen = []
+    @update_once
+    def up_prod():
+      r = bool(s.q.enq.rdy())
+      s.rdy_seen.append(r)
+      if r and offer[s.cyc % len(offer)] and s.idx < len(msgs):
+        s.q.enq(msgs[s.idx]); s.accepted.append(s.idx); s.idx += 1
+    @update_once
+    def up_cons():
+      s.q.send.rdy @= 0 if stall[s.cyc % len(stall)] else 1
+    @update_once
+    def up_log():
+      if s.q.send.val & s.q.send.rdy:
+        s.delivered.append(K(s.q.send.msg))
+      s.cyc += 1
+class TopRecvAd(Component):
+  # stream producer -> RecvQueueAdapter (one entry) -> cycle-level consumer with stalls
+  def construct(s, T, msgs, offer, stall):
+    s.q = RecvQueueAdapter(T)
+    s.cyc = 0; s.idx = 0; s.accepted = []; s.delivered = []
+    @update_once
+    def up_prod():
+      if offer[s.cyc % len(offer)] and s.idx < len(msgs):
+        s.q.recv.val @= 1; s.q.recv.msg @= msgs[s.idx]
+      else:
+        s.q.recv.val @= 0
+    @update_once
+    def up_log():
+      if s.q.recv.val & s.q.recv.rdy:
+        s.accepted.append(s.idx); s.idx += 1
+    @update_once
+    def up_cons():
+      if s.q.deq.rdy() and not stall[s.cyc % len(stall)]:
+        s.delivered.append(K(s.q.deq()))
+      s.cyc += 1
+"""
+
+
+def run_adapters(sh, case):
+  """the one-entry queue adapters of the stream library (cycle-level method on one side, val/rdy stream on the other): what is
+  delivered is exactly what was accepted, in order; at most one message is held.  Payloads include zero and all-ones values,
+  repeated values, and struct messages."""
+  from pymtl3 import DefaultPassGroup, Bits8, Bits1
+  from vlib import specgen as G
+  rng = sh.rng("adapt", case)
+  mod = G.load_source(ADAPT_SRC, "c17adapt")
+  try:
+    which = rng.choice(["Send", "Recv"])
+    et = rng.choice(["bits8", "bits1", "struct"])
+    nm = rng.randrange(8, 40)
+    def val():
+      r = rng.random()
+      return 0 if r < 0.45 else (255 if r < 0.55 else rng.getrandbits(8))
+    raw = [val() for _ in range(nm)]
+    if et == "bits8": T = Bits8; msgs = [Bits8(v) for v in raw]
+    elif et == "bits1": T = Bits1; msgs = [Bits1(v & 1) for v in raw]
+    else: T = mod.AMsg; msgs = [mod.AMsg(v & 15, v) if v else mod.AMsg() for v in raw]
+    offer = [rng.random() < 0.8 for _ in range(rng.randrange(3, 9))]
+    if not any(offer): offer[0] = True
+    stall = [rng.random() < rng.choice([0.2, 0.6, 0.85]) for _ in range(rng.randrange(3, 11))]
+    if all(stall): stall[0] = False
+    top = getattr(mod, f"Top{which}Ad")(T, msgs, offer, stall)
+    top.elaborate(); top.apply(DefaultPassGroup()); top.sim_reset()
+    start = 0                 # the harness runs (and is logged) during the reset cycles, too
+    ncyc = rng.randrange(40, 140)
+    for _ in range(ncyc): top.sim_tick()
+    acc = [i for i in top.accepted]
+    key = (lambda m: int(m)) if et != "struct" else (lambda m: int(m.to_bits()))
+    exp = [key(msgs[i]) for i in acc]
+    got = list(top.delivered)
+    sh.count("adapter_runs"); sh.count("evaluations"); sh.count("adapter_messages_delivered", len(got)); sh.count("adapter_zero_messages_accepted", sum(1 for x in exp if x == 0))
+    sh.fp("adapter", which, et, tuple(stall), tuple(offer))
+    ctx = {"adapter": which + "QueueAdapter", "message_type": et, "stall_pattern": stall, "offer_pattern": offer, "cycles": ncyc,
+           "accepted": [hex(x) for x in exp[:30]], "delivered": [hex(x) for x in got[:30]], "n_accepted": len(exp), "n_delivered": len(got)}
+    if acc != list(range(start, start + len(acc))):
+      sh.inconclusive("adapter-harness-accepted-indices-not-consecutive"); return
+    if got != exp[:len(got)]:
+      sh.violation("system-delivers-other-messages-than-were-accepted", ctx, case=("adapter", case)); return
+    if len(exp) - len(got) > 1:
+      sh.violation("more-messages-in-flight-than-queue-and-adapter-can-hold", ctx, case=("adapter", case)); return
+    if len(exp) < 3:
+      sh.inconclusive("adapter-system-made-no-progress")
+  except Exception:
+    sh.violation("mixed-system-raised", {"shape": "adapter", "error": traceback.format_exc()[-600:]}, case=("adapter", case))
+  finally:
+    G.unload(mod)
+
+
 def run_shard(sh):
   cfg = sh.params
+  for case in range(3 if sh.tier == "quick" else 30):
+    run_adapters(sh, cfg["cfg_idx"] * 100 + case)
   for case in range(3 if sh.tier == "quick" else 30):
     run_mixed(sh, cfg["cfg_idx"] * 100 + case)
   rng = sh.rng("cfg", cfg["cfg_idx"])
